@@ -13,7 +13,8 @@ Definition lang_of (t : tables) (s : string) : nat :=
 
 Inductive dkind :=
 | DAudience | DTime | DLocale | DLocales | DBool | DSDA
-| DIDToken | DAccessToken | DTokenClaims | DJWTRequest | DRequestObject | DActor | DUserinfo | DIntrospection.
+| DIDToken | DAccessToken | DTokenClaims | DJWTRequest | DRequestObject | DActor | DUserinfo | DIntrospection
+| DDeviceAuthz | DLogoutToken | DJWTProfileAssertion | DDiscovery | DTokenResponse | DTokenExchange.
 
 Inductive cls := KOk | KErr | KPanic.
 
@@ -37,16 +38,24 @@ Definition decode (t : tables) (d : dkind) (j : json) : cls :=
   | DActor => cls_of (actor_field j)
   | DUserinfo => st sc_userinfo true
   | DIntrospection => st sc_introspection true
+  | DDeviceAuthz => cls_of (decode_device_authz (time_of t) (lang_of t) true j)
+  | DLogoutToken => st sc_logout_token true
+  | DJWTProfileAssertion => st sc_jwt_profile_assertion true
+  | DDiscovery => st sc_discovery false
+  | DTokenResponse => st sc_token_response false
+  | DTokenExchange => st sc_token_exchange false
   end.
 
 (* free-form fuzz of the routers: only the class of the answer is observed *)
 Inductive rkind := RSingle | RPanic | RDouble | RContinued.
 
 Inductive input :=
-| IDecode (d : dkind) (j : json) (t : tables)        (* json.Unmarshal(serialise j, &value of kind d) *)
+| IDecode (d : dkind) (member : bool) (j : json) (t : tables)
+    (* json.Unmarshal(serialise j, &value of kind d); member: the value is a (non-pointer) member of an enclosing object *)
 | IVerify (k : vkind) (tok : token) (t : tables)     (* verifier entry point on a token of that shape *)
 | IHandler (s : shape)                               (* request of that shape to that router / handler function *)
 | IExit (x : xshape)                                 (* valid authenticated request whose x_fault-th storage call fails *)
+| IHint (c : hcaller) (e : entry) (h : hint)         (* signed id_token_hint with those claims at end_session / authorize *)
 | ICode (x : cshape)                                 (* redemption of a live code: stored challenge x verifier sent x client kind *)
 | IRoute (e : entry) (class : nat) (req : string)    (* arbitrary route x method x header x body; class = generator family (>0);
                                                         req = digest of the request bytes (identifies the case; never inspected) *)
@@ -61,15 +70,17 @@ Inductive observed :=
 | OHandler (o : outcome)
 | ORoute (k : rkind)
 | OClient (c : cres)
+| OHint (r : hres)
 | OUserCode (c : cls).
 
 Definition model (i : input) : observed :=
   match i with
-  | IDecode d j t => ODecode (decode t d j)
+  | IDecode d _ j t => ODecode (decode t d j)
   | IVerify k tok t => OVerify (verify (time_of t) (lang_of t) true true k tok)
   | IHandler s => OHandler (handler true s)
   | IExit x => OHandler (xhandler true x)
   | ICode x => OHandler (chandler true x)
+  | IHint c _ h => OHint (hint_caller true c h)
   | IRoute _ _ _ => ORoute RSingle
   | IClient h a e t => OClient (call (time_of t) (lang_of t) true h a e)
   | IDevice dev tok t => OClient (device_flow (time_of t) (lang_of t) true dev tok)
@@ -83,11 +94,12 @@ Definition model (i : input) : observed :=
    the answer matches the kind of the question. *)
 Definition spec (i : input) (o : observed) : bool :=
   match i, o with
-  | IDecode _ _ _, ODecode c => match c with KPanic => false | _ => true end
+  | IDecode _ _ _ _, ODecode c => match c with KPanic => false | _ => true end
   | IVerify _ _ _, OVerify r => match r with VPanic => false | _ => true end
   | IHandler _, OHandler h => single h
   | IExit _, OHandler h => single h
   | ICode _, OHandler h => single h
+  | IHint _ _ _, OHint r => match r with HRefused | HAccepted => true | _ => false end
   | IRoute _ _ _, ORoute k => match k with RSingle => true | _ => false end
   | IClient _ a _ _, OClient c =>      (* a 200 body that is not a JSON document must come back as an error *)
       match c with
@@ -138,13 +150,17 @@ Definition obs_eqb (a b : observed) : bool :=
   | ORoute x, ORoute y => rkind_eqb x y
   | OClient x, OClient y => cres_eqb x y
   | OUserCode x, OUserCode y => cls_eqb x y
+  | OHint x, OHint y => match x, y with
+                        | HRefused, HRefused | HAccepted, HAccepted | HPanic, HPanic | HDouble, HDouble => true
+                        | _, _ => false
+                        end
   | _, _ => false
   end.
 
 (* decision-path class; 0 = the trivial first-guard reject *)
 Definition path (i : input) (o : observed) : nat :=
   match i, o with
-  | IDecode _ j _, ODecode c =>
+  | IDecode _ _ j _, ODecode c =>
       match j with
       | JNull => 0
       | _ => match c with KOk => 1 | KErr => 2 | KPanic => 3 end
@@ -161,6 +177,7 @@ Definition path (i : input) (o : observed) : nat :=
       end
   | IExit x, OHandler h => match h with OFault => 17 | OGrant => 18 + (if x_fault x =? 0 then 0 else 1) | _ => 10 end
   | ICode x, OHandler h => match h with OGrant => 40 | OResp _ EInvalidGrant => 41 | _ => 42 end
+  | IHint _ _ h, OHint r => match r with HRefused => 50 | HAccepted => 51 + (match h_iat h with TPast => 0 | _ => 1 end) | _ => 53 end
   | IRoute _ c _, _ => 20 + c
   | IClient _ a _ _, OClient c =>
       if negb (a_ok a) then 11
